@@ -19,7 +19,7 @@ def is_valid_file(filepath: Union[str, Path, None]) -> bool:
     """check if the passed filepath points to a real file"""
     if filepath is None:
         return False
-    return Path(filepath).exists()
+    return Path(filepath).expanduser().exists()
 
 
 def resolve_path(filepath: Union[str, Path]) -> Path:
